@@ -25,6 +25,7 @@ import (
 	"errors"
 	"fmt"
 	"io"
+	"math/big"
 	"os"
 	"os/exec"
 	"path/filepath"
@@ -44,7 +45,8 @@ import (
 	"github.com/notaryproject/notation-go/zzverif/lib/pki"
 )
 
-var urls = []string{"http://crl.example/u1.crl", "http://crl.example/u2.crl"}
+// u3 differs from u1 only in letter case: it is another URL and must never share an entry with u1
+var urls = []string{"http://crl.example/u1.crl", "http://crl.example/u2.crl", "HTTP://CRL.EXAMPLE/U1.CRL"}
 
 // ---- bundles (generated once by the parent, handed to workers/processes as DER files) ----
 
@@ -64,6 +66,13 @@ func writeBundles(dir string) {
 	must(os.WriteFile(filepath.Join(dir, "B.base"), mk(2, 0), 0o644))
 	must(os.WriteFile(filepath.Join(dir, "B.delta"), mk(3, 2), 0o644))
 	must(os.WriteFile(filepath.Join(dir, "C.base"), mk(4, 0), 0o644))
+	// twins of A and B: same issuer, CRL numbers and dates, other content (one more revoked serial) - "stored" means these bytes
+	mk2 := func(n int64, delta int64) []byte {
+		return pki.CRL(ca, n, now.Add(-time.Hour), now.Add(48*time.Hour), []*big.Int{big.NewInt(4242)}, delta).Raw
+	}
+	must(os.WriteFile(filepath.Join(dir, "A2.base"), mk2(1, 0), 0o644))
+	must(os.WriteFile(filepath.Join(dir, "B2.base"), mk(2, 0), 0o644))
+	must(os.WriteFile(filepath.Join(dir, "B2.delta"), mk2(3, 2), 0o644))
 }
 
 func must(err error) {
@@ -73,7 +82,7 @@ func must(err error) {
 }
 
 func loadBundles(dir string) *bundleSet {
-	bs := &bundleSet{names: []string{"A", "B", "C"}, bundles: map[string]*corecrl.Bundle{}}
+	bs := &bundleSet{names: []string{"A", "B", "C", "A2", "B2"}, bundles: map[string]*corecrl.Bundle{}}
 	for _, n := range bs.names {
 		b := &corecrl.Bundle{}
 		der, err := os.ReadFile(filepath.Join(dir, n+".base"))
@@ -99,18 +108,23 @@ func (bs *bundleSet) classify(b *corecrl.Bundle, err error) string {
 	case b == nil || b.BaseCRL == nil:
 		return "NIL-BUNDLE"
 	}
+	baseOf := ""
 	for _, n := range bs.names {
 		w := bs.bundles[n]
 		if !bytes.Equal(b.BaseCRL.Raw, w.BaseCRL.Raw) {
 			continue
 		}
+		baseOf = n
 		if (b.DeltaCRL == nil) != (w.DeltaCRL == nil) {
-			return "MIXED(base of " + n + ", delta differs)"
+			continue
 		}
 		if b.DeltaCRL != nil && !bytes.Equal(b.DeltaCRL.Raw, w.DeltaCRL.Raw) {
-			return "MIXED(base of " + n + ", other delta)"
+			continue
 		}
 		return n
+	}
+	if baseOf != "" {
+		return "MIXED(base of " + baseOf + ", delta of no such bundle)"
 	}
 	return "FOREIGN"
 }
@@ -155,6 +169,11 @@ func scenarios(thorough bool) []scenario {
 		{Name: "W||W other url||R;R (isolation)", Init: []op{set(0, "A")}, Threads: [][]op{{set(0, "B")}, {set(1, "C")}, {get(0), get(1)}}, MaxCrashes: 0},
 		{Name: "W;W||R;R (freshness) from A", Init: []op{set(0, "A")}, Threads: [][]op{{set(0, "B"), set(0, "C")}, {get(0), get(0)}}, Crashable: []int{0}, MaxCrashes: 1},
 		{Name: "W;R||W (read own write)", Threads: [][]op{{set(0, "A"), get(0)}, {set(0, "B")}}, MaxCrashes: 0, Torn: true},
+		// twins: the second store differs from the first only in content (same issuer, CRL number, dates)
+		{Name: "W(twin);R||R from A", Init: []op{set(0, "A")}, Threads: [][]op{{set(0, "A2"), get(0)}, {get(0)}}, Crashable: []int{0}, MaxCrashes: 1},
+		{Name: "W(B);W(twin B2)||R;R", Threads: [][]op{{set(0, "B"), set(0, "B2")}, {get(0), get(0)}}, MaxCrashes: 0},
+		// URLs that differ only in letter case are different URLs
+		{Name: "W(u1)||W(U1 upper case)||R;R (case isolation)", Init: []op{set(0, "A")}, Threads: [][]op{{set(0, "B")}, {set(2, "C")}, {get(0), get(2)}}, MaxCrashes: 0},
 	}
 	if thorough {
 		s = append(s,
